@@ -182,7 +182,8 @@ def gen_c15(seed):
             elif c < 0.9:
                 hist.append({"op": "len"})
             else:
-                hist.append({"op": "restatic", "r": r.choice((None, 1, 2, 3, 5, 7))})
+                rr = r.choice((None, 1, 2, 3, 5, 7))
+                hist.append({"op": "restatic", "r": "same" if r.random() < 0.4 else rr})
         from ..samplersim import shape_of
         sh = shape_of(base)
         return {"format": 1, "property": "C15", "engine": "samplersim", "kind": "static", "seed": seed,
